@@ -1332,7 +1332,9 @@ class Executor:
             elif nm in path.env:
                 path.env[nm] = self._havoc_like(path, path.env[nm], nm)
         mods = spec.modifies if spec.modifies is not None else (self.contract.modifies if self.contract else [])
-        self.havoc_keys(path, mods, self.s0, prefix="L_")
+        entry = path.snapshot()
+        self.havoc_keys(path, mods, entry, prefix="L_")
+        return entry
 
     def _havoc_like(self, path, v: V, nm: str) -> V:
         if isinstance(v, B):
@@ -1355,17 +1357,17 @@ class Executor:
             setattr(ns, k, v)
         return ns
 
-    def _check_inv(self, path, spec: LoopSpec, k: int, phase: str, **extra):
+    def _check_inv(self, path, spec: LoopSpec, k: int, phase: str, entry=None, **extra):
         inv = spec.inv(self.s0, path.view(), self.a, self._locals_ns(path, **extra))
         for label, f in inv.items():
             self.run.oblige(path, f"loop{k}-inv-{phase}", label, f)
         if phase == "preserved":
             mods = spec.modifies if spec.modifies is not None else (self.contract.modifies if self.contract else [])
-            al0 = self.s0["ghost.alloc"]
+            al0 = entry["ghost.alloc"]
             for km in mods:
                 if km.endswith("+"):
                     key = km[:-1]
-                    cur, init = path.hget(key), self.s0[key]
+                    cur, init = path.hget(key), entry[key]
                     if cur is init:
                         continue
                     o = z3.Const("o!lf", Int)
@@ -1383,7 +1385,7 @@ class Executor:
         if spec is None:
             raise Unsupported(f"{self.qualname}: while loop #{k} has no invariant")
         self._check_inv(path, spec, k, "entry")
-        self._havoc_for_loop(path, st.body + [st.test], spec)
+        entry = self._havoc_for_loop(path, st.body + [st.test], spec)
         self._assume_inv(path, spec)
         if not path.feasible():
             return []
@@ -1396,7 +1398,7 @@ class Executor:
                 if bv:
                     for p3, oc in self.exec_block(st.body, p2):
                         if isinstance(oc, (Norm, Cont)):
-                            self._check_inv(p3, spec, k, "preserved")
+                            self._check_inv(p3, spec, k, "preserved", entry=entry)
                             self.run.paths_explored += 1
                         elif isinstance(oc, Brk):
                             out.append((p3, NORM))
@@ -1467,7 +1469,7 @@ class Executor:
             raise Unsupported(f"{self.qualname}: for loop #{k} has no invariant")
         path.assume(n >= 0)
         self._check_inv(path, spec, k, "entry", i=z3.IntVal(0), n=n, seq=elem)
-        self._havoc_for_loop(path, st.body, spec, extra_names=_target_names(st.target))
+        entry = self._havoc_for_loop(path, st.body, spec, extra_names=_target_names(st.target))
         i = fresh("i", Int)
         path.assume(i >= 0, i <= n)
         self._assume_inv(path, spec, i=i, n=n, seq=elem)
@@ -1480,7 +1482,7 @@ class Executor:
                 for p1, oc1 in self.assign(p, st.target, item):
                     for p2, oc in self.exec_block(st.body, p1):
                         if isinstance(oc, (Norm, Cont)):
-                            self._check_inv(p2, spec, k, "preserved", i=i + 1, n=n, seq=elem)
+                            self._check_inv(p2, spec, k, "preserved", entry=entry, i=i + 1, n=n, seq=elem)
                             self.run.paths_explored += 1
                         elif isinstance(oc, Brk):
                             out.append((p2, NORM))
